@@ -388,10 +388,37 @@ class Facts:
         self.bodies = {}
         for b in j["bodies"]:
             self.bodies[b["key"]] = Body(b, self)
+        self._resolve_into_calls()
         self.adts = {a["path"]: a for a in j["adts"]}
         self.consts = {c["key"]: c for c in j["consts"]}
         self.unsafe_blocks = j["unsafe_blocks"]
         self.impls = j["impls"]
+
+    def _resolve_into_calls(self):
+        """`x.into()` resolves to std's blanket `impl<T, U: From<T>> Into<U> for T`, whose body is `U::from(x)`: when the
+        crate has exactly one `impl From<T'> for U'` with the heads of T and U, present the call as that `From::from`
+        call (so that `v.into()` and `U::from(v)` are the same construct for every rule)"""
+        def head(ty):
+            return ty.split("<", 1)[0].lstrip("&").strip()
+        froms = {}
+        for k, b in self.bodies.items():
+            im = b.j.get("impl", {})
+            if b.kind != "Closure" and im.get("trait", "").startswith("std::convert::From") and (b.j.get("name") or k.rsplit("::", 1)[-1]) == "from" and b.j.get("inputs"):
+                froms.setdefault((im.get("self_adt") or head(im.get("self_ty", "")), head(b.j["inputs"][0])), []).append(b)
+        if not froms:
+            return
+        for b in self.bodies.values():
+            for blk in b.j["blocks"]:
+                t = blk["term"]
+                f = t.get("fn") if t.get("k") == "call" else None
+                if not f or f.get("path") != "std::convert::Into::into" or f.get("resolved_key") or len(f.get("gargs", [])) != 2:
+                    continue
+                T, U = f["gargs"]
+                c = froms.get((head(U), head(T)), [])
+                if len(c) == 1:
+                    t["fn"] = {"path": "std::convert::From::from", "name": "from", "local": False, "krate": "core", "gargs": [U, T],
+                               "trait": "std::convert::From", "self_ty": U, "self_adt": head(U), "resolved": c[0].key, "resolved_key": c[0].key,
+                               "via_into": True}
 
     def find(self, pred):
         return [b for b in self.bodies.values() if pred(b)]
